@@ -29,7 +29,13 @@
      (one provider pass = one oracle pass with the oracle "trace of this pass", then the oracle-level pass lemma); the provider never throws and
      the line search never runs out of fuel (PanocDirLive.v, ZeroFprDirLive.v).  The QP corollary then follows BY REFINEMENT.
    (5) ZeroFPR under the default criterion ApproxKKT, every direction oracle:                      C02_zerofpr_returns_converged_ApproxKKT
-   NOT PROVED (explored on the implementation by the check's oracle): liveness of the OUTER ALM loop and of PANTR / FISTA;
+   (6) FISTA (whole-loop model FistaLoop.fista), strongly convex smooth part (modulus mu): THE ITERATES CONVERGE TO THE MINIMISER — at every
+     progress record of every run  ‖x̂_k − xs‖² <= 4‖x0 − xs‖²/(mu γ_k (k+1)²)  (O(1/k) with disable_acceleration), and <= eps from an explicitly
+     computed K(eps) on, in every Lipschitz mode (quadratic growth with constant mu/2 ∘ C08's rate; FistaLoopConv.v).
+                                                                  C02_fista_quadratic_growth, C02_fista_iterates_converge[_every_loop_head|_fixed_step|_noaccel…],
+                                                                  C02_fista_iterates_count[_noaccel], C02_fista_iterates_within_eps_from_K_on[…]
+   NOT PROVED (explored on the implementation by the check's oracle): liveness (= the run returns Converged) of the OUTER ALM loop and of PANTR / FISTA
+     (for FISTA the iterates and the function values converge — (6), C08 — but no stop criterion's ε is bounded by them);
      positive tolerance factors (see the note at the end of this file); the effect of binary64 rounding (the theorems are over R).
      For those stacks the missing link remains `stack_reaches_converged`. *)
 From Coq Require Import Reals List ZArith Bool Lra Lia.
@@ -1105,6 +1111,174 @@ Proof.
   - cbn. lia.
   - lia.
 Qed.
+
+(* ====================================================================== (6) FISTA: THE ITERATES CONVERGE TO THE MINIMISER ======================
+   Theorems about FistaLoop.fista = the WHOLE of FISTASolver::operator() (every Lipschitz mode, l1, m >= 0, any stop criterion), the model the
+   whole-run correspondence Corr_FISTA ties to the real solver; hypotheses of C08 (9)-(15) (prob_ok / smooth_convex / coherent / fparams_ok /
+   minimiser, see Properties_C08.v) PLUS strong convexity of the smooth part ψ (for m > 0: the augmented Lagrangian at the fixed y, Σ):
+     strongly_convex n ψ ∇ψ mu :   0 < mu  and  ψ(y) + <∇ψ(y), x − y> + (mu/2)‖x − y‖² <= ψ(x)  for all n-vectors x, y.
+   `minimiser` only says F(xs) <= F(x) for feasible x, so the first step is QUADRATIC GROWTH (mu/2)‖x − xs‖² <= F(x) − F(xs) (constant mu/2,
+   from minimality along the segment, FistaLoopConv.quadratic_growth); composed with C08's function-value rate on every progress record:
+     accelerated:            ‖x̂_k − xs‖² <= 4‖x0 − xs‖² / (mu γ_k (k+1)²)      (also with (k+2)²)
+     disable_acceleration:   ‖x̂_k − xs‖² <=  ‖x0 − xs‖² / (mu γ_k (k+1))
+   and, with K(eps) COMPUTED from mu, Lγ_factor, ‖x0 − xs‖², eps and the step-size lower bound — L_max in fixed-step mode,
+   max(L_init, 2 Lf) in EVERY mode (C08_fistaloop_stepsize_lower_bound), so no mode lacks an explicit K —: every record with k + 1 >= K(eps) of
+   every run has ‖x̂_k − xs‖² <= eps, whatever max_iter, the stop criterion, the tolerance, the stop flag, the clock and the fuels are.
+   NOT claimed: that the run returns Converged (no stop criterion's ε is bounded by the gap, see C08 (13)); the linear rate that strong
+   convexity would give the non-accelerated loop (only the O(1/k) bound inherited from C08 is stated). *)
+From Alpaqa Require Import Fista FistaGen FistaK FistaProofs FistaGenProofs FistaLoop FistaLoopProofs FistaLoopRate FistaLoopConv.
+
+Section C02_FISTA_ITERATES.
+  Variable psi_grad : fcounters -> list R -> R * list R.
+  Variable psi_yhat : fcounters -> list R -> R * list R.
+  Variable grad_L : fcounters -> list R -> list R -> list R.
+  Variable grad_psi : fcounters -> list R -> list R.
+  Variables (lb ub : list (option R)) (l1 : list R).
+  Variable stop_req : fcounters -> bool.
+  Variable time_up : fcounters -> bool.
+  Variable P : fparams (T:=R).
+  Variables (x_in y_in Σ errz_in : list R).
+  Variable bt_fuel : nat.
+  Variables (n : nat) (f : list R -> R) (gradf : list R -> list R) (Lf : R) (xs : list R) (mu : R).
+  Hypothesis Hok : prob_ok n lb ub l1.
+  Hypothesis Hf : smooth_convex n f gradf Lf.
+  Hypothesis Hco : coherent n f gradf psi_grad psi_yhat grad_psi.
+  Hypothesis HP : fparams_ok P Lf.
+  Hypothesis Hxs : minimiser n f lb ub l1 xs.
+  Hypothesis Hx0 : length x_in = n.
+  Hypothesis Hsc : strongly_convex n f gradf mu.
+
+  Notation run := (fista psi_grad psi_yhat grad_L grad_psi lb ub l1 stop_req time_up P x_in y_in Σ errz_in bt_fuel).
+  Notation Reachable := (reachable psi_grad psi_yhat grad_L grad_psi lb ub l1 stop_req time_up P x_in y_in Σ errz_in bt_fuel).
+  Notation gap r := (F n f l1 (jxh (fr_it r)) - F n f l1 xs).
+  Notation d2 r := (dist2 n (jxh (fr_it r)) xs).           (* ‖x̂_k − xs‖² of a record *)
+  Notation R2 := (dist2 n x_in xs).
+  Notation γlow := (fp_Lgamma P / Rmax (L_init psi_grad grad_psi P x_in) (2 * Lf)).     (* step-size lower bound valid in every mode *)
+  Notation ARGS T := (T psi_grad psi_yhat grad_L grad_psi lb ub l1 stop_req time_up P x_in y_in Σ errz_in bt_fuel n f gradf Lf xs mu Hok Hf Hco HP Hxs Hx0 Hsc) (only parsing).
+
+  (* (6.0) quadratic growth at the minimiser, constant mu/2 *)
+  Theorem C02_fista_quadratic_growth : forall x, length x = n -> feas n lb ub x ->
+    mu / 2 * dist2 n x xs <= F n f l1 x - F n f l1 xs.
+  Proof. exact (quadratic_growth n f gradf lb ub l1 mu xs Hok Hsc Hxs). Qed.
+
+  (* (6.1) THE ITERATES, accelerated loop, fixed and backtracked step size: EVERY progress-callback record (k, x̂_k, γ_k) of EVERY completed run *)
+  Theorem C02_fista_iterates_converge : forall fuel o, run fuel = FDone o -> fp_noaccel P = false ->
+    Forall (fun r => 0 < jgam (fr_it r) /\ length (jxh (fr_it r)) = n /\ feas n lb ub (jxh (fr_it r)) /\
+                     mu / 2 * d2 r <= gap r /\
+                     d2 r <= 4 * R2 / (mu * jgam (fr_it r) * ((INR (fr_k r) + 2) * (INR (fr_k r) + 2))) /\
+                     d2 r <= 4 * R2 / (mu * jgam (fr_it r) * ((INR (fr_k r) + 1) * (INR (fr_k r) + 1)))) (fo_log o).
+  Proof. exact (ARGS fistaloop_iterates). Qed.
+
+  (* (6.2) ... and the records written so far at every loop head of every run, completed or not *)
+  Theorem C02_fista_iterates_converge_every_loop_head : forall s, Reachable s -> fp_noaccel P = false ->
+    Forall (fun r => 0 < jgam (fr_it r) /\ length (jxh (fr_it r)) = n /\ feas n lb ub (jxh (fr_it r)) /\
+                     mu / 2 * d2 r <= gap r /\
+                     d2 r <= 4 * R2 / (mu * jgam (fr_it r) * ((INR (fr_k r) + 2) * (INR (fr_k r) + 2))) /\
+                     d2 r <= 4 * R2 / (mu * jgam (fr_it r) * ((INR (fr_k r) + 1) * (INR (fr_k r) + 1)))) (fs_log s).
+  Proof. exact (ARGS fistaloop_iterates_reachable). Qed.
+
+  (* (6.3) fixed-step mode (L_min = L_max): γ_k = Lγ_factor / L_max at every record, closed-form bound *)
+  Theorem C02_fista_iterates_converge_fixed_step : forall fuel o, run fuel = FDone o -> fp_noaccel P = false -> ffixed P = true ->
+    Forall (fun r => jgam (fr_it r) = fp_Lgamma P / fp_Lmax P /\
+                     d2 r <= 4 * fp_Lmax P * R2 / (mu * fp_Lgamma P * ((INR (fr_k r) + 2) * (INR (fr_k r) + 2))) /\
+                     d2 r <= 4 * fp_Lmax P * R2 / (mu * fp_Lgamma P * ((INR (fr_k r) + 1) * (INR (fr_k r) + 1)))) (fo_log o).
+  Proof. exact (ARGS fistaloop_iterates_fixed_step). Qed.
+
+  (* (6.4) disable_acceleration: the O(1/k) analogue, completed runs and every loop head *)
+  Theorem C02_fista_iterates_converge_noaccel : forall fuel o, run fuel = FDone o -> fp_noaccel P = true ->
+    Forall (fun r => 0 < jgam (fr_it r) /\ length (jxh (fr_it r)) = n /\ feas n lb ub (jxh (fr_it r)) /\
+                     mu / 2 * d2 r <= gap r /\
+                     d2 r <= R2 / (mu * jgam (fr_it r) * (INR (fr_k r) + 1))) (fo_log o).
+  Proof. exact (ARGS fistaloop_iterates_noaccel). Qed.
+  Theorem C02_fista_iterates_converge_noaccel_every_loop_head : forall s, Reachable s -> fp_noaccel P = true ->
+    Forall (fun r => 0 < jgam (fr_it r) /\ length (jxh (fr_it r)) = n /\ feas n lb ub (jxh (fr_it r)) /\
+                     mu / 2 * d2 r <= gap r /\
+                     d2 r <= R2 / (mu * jgam (fr_it r) * (INR (fr_k r) + 1))) (fs_log s).
+  Proof. exact (ARGS fistaloop_iterates_noaccel_reachable). Qed.
+
+  (* (6.5) iteration count with a step-size lower bound γmin supplied by the caller (γ is non-increasing along a run — FISTA_gamma_nonincreasing —,
+     so γmin may be the γ of the last record looked at): k + 1 >= N >= sqrt(4‖x0−xs‖²/(mu γmin eps))  ⇒  ‖x̂_k − xs‖² <= eps *)
+  Theorem C02_fista_iterates_count : forall fuel o, run fuel = FDone o -> fp_noaccel P = false ->
+    forall (γmin eps : R) (N : nat), 0 < γmin -> 0 < eps -> sqrt (4 * R2 / (mu * γmin * eps)) <= INR N ->
+    Forall (fun r => γmin <= jgam (fr_it r) -> (N <= fr_k r + 1)%nat -> d2 r <= eps) (fo_log o).
+  Proof. exact (ARGS fistaloop_iterates_count). Qed.
+  Theorem C02_fista_iterates_count_noaccel : forall fuel o, run fuel = FDone o -> fp_noaccel P = true ->
+    forall (γmin eps : R) (N : nat), 0 < γmin -> 0 < eps -> R2 / (mu * γmin * eps) <= INR N ->
+    Forall (fun r => γmin <= jgam (fr_it r) -> (N <= fr_k r + 1)%nat -> d2 r <= eps) (fo_log o).
+  Proof. exact (ARGS fistaloop_iterates_count_noaccel). Qed.
+
+  (* (6.6) CONVERGENCE WITH K(eps) COMPUTED, no hypothesis on the step sizes, EVERY Lipschitz mode (backtracking from L_0 or from the
+     finite-difference estimate, and fixed step): K = ⌈sqrt(4‖x0−xs‖² / (mu γlow eps))⌉, γlow = Lγ_factor / max(L_init, 2 Lf) *)
+  Theorem C02_fista_iterates_within_eps_from_K_on : forall fuel o, run fuel = FDone o -> fp_noaccel P = false ->
+    forall eps, 0 < eps ->
+    let K := Z.to_nat (up (sqrt (4 * R2 / (mu * γlow * eps)))) in
+    Forall (fun r => (K <= fr_k r + 1)%nat -> d2 r <= eps) (fo_log o).
+  Proof. exact (ARGS fistaloop_iterates_converge). Qed.
+  Theorem C02_fista_iterates_within_eps_from_K_on_every_loop_head : forall s, Reachable s -> fp_noaccel P = false ->
+    forall eps, 0 < eps ->
+    let K := Z.to_nat (up (sqrt (4 * R2 / (mu * γlow * eps)))) in
+    Forall (fun r => (K <= fr_k r + 1)%nat -> d2 r <= eps) (fs_log s).
+  Proof. exact (ARGS fistaloop_iterates_converge_reachable). Qed.
+  (* fixed-step mode: K = ⌈sqrt(4 L_max ‖x0−xs‖² / (mu Lγ_factor eps))⌉ *)
+  Theorem C02_fista_iterates_within_eps_from_K_on_fixed_step : forall fuel o, run fuel = FDone o -> fp_noaccel P = false -> ffixed P = true ->
+    forall eps, 0 < eps ->
+    let K := Z.to_nat (up (sqrt (4 * R2 / (mu * (fp_Lgamma P / fp_Lmax P) * eps)))) in
+    Forall (fun r => (K <= fr_k r + 1)%nat -> d2 r <= eps) (fo_log o).
+  Proof. exact (ARGS fistaloop_iterates_converge_fixed_step). Qed.
+  (* disable_acceleration: K = ⌈‖x0−xs‖² / (mu γlow eps)⌉ (every mode), ⌈L_max ‖x0−xs‖² / (mu Lγ_factor eps)⌉ (fixed step) *)
+  Theorem C02_fista_iterates_within_eps_from_K_on_noaccel : forall fuel o, run fuel = FDone o -> fp_noaccel P = true ->
+    forall eps, 0 < eps ->
+    let K := Z.to_nat (up (R2 / (mu * γlow * eps))) in
+    Forall (fun r => (K <= fr_k r + 1)%nat -> d2 r <= eps) (fo_log o).
+  Proof. exact (ARGS fistaloop_iterates_converge_noaccel). Qed.
+  Theorem C02_fista_iterates_within_eps_from_K_on_noaccel_every_loop_head : forall s, Reachable s -> fp_noaccel P = true ->
+    forall eps, 0 < eps ->
+    let K := Z.to_nat (up (R2 / (mu * γlow * eps))) in
+    Forall (fun r => (K <= fr_k r + 1)%nat -> d2 r <= eps) (fs_log s).
+  Proof. exact (ARGS fistaloop_iterates_converge_noaccel_reachable). Qed.
+  Theorem C02_fista_iterates_within_eps_from_K_on_noaccel_fixed_step : forall fuel o, run fuel = FDone o -> fp_noaccel P = true -> ffixed P = true ->
+    forall eps, 0 < eps ->
+    let K := Z.to_nat (up (R2 / (mu * (fp_Lgamma P / fp_Lmax P) * eps))) in
+    Forall (fun r => (K <= fr_k r + 1)%nat -> d2 r <= eps) (fo_log o).
+  Proof. exact (ARGS fistaloop_iterates_converge_noaccel_fixed_step). Qed.
+End C02_FISTA_ITERATES.
+Print Assumptions C02_fista_quadratic_growth.
+Print Assumptions C02_fista_iterates_converge.
+Print Assumptions C02_fista_iterates_converge_every_loop_head.
+Print Assumptions C02_fista_iterates_converge_fixed_step.
+Print Assumptions C02_fista_iterates_converge_noaccel.
+Print Assumptions C02_fista_iterates_converge_noaccel_every_loop_head.
+Print Assumptions C02_fista_iterates_count.
+Print Assumptions C02_fista_iterates_count_noaccel.
+Print Assumptions C02_fista_iterates_within_eps_from_K_on.
+Print Assumptions C02_fista_iterates_within_eps_from_K_on_every_loop_head.
+Print Assumptions C02_fista_iterates_within_eps_from_K_on_fixed_step.
+Print Assumptions C02_fista_iterates_within_eps_from_K_on_noaccel.
+Print Assumptions C02_fista_iterates_within_eps_from_K_on_noaccel_every_loop_head.
+Print Assumptions C02_fista_iterates_within_eps_from_K_on_noaccel_fixed_step.
+
+(* non-vacuity of (6): the two instances of C08's whole-run theorems are strongly convex with mu = 1, all hypotheses hold and, for every
+   max_iter, the run completes with a non-empty log:
+   (a) m = 0, fixed step: ψ = ½‖x‖² on R², box [-1,1] x R, l1 weight ½, xs = (0,0), x0 = (3,-2);
+   (b) m = 1, backtracking from L_0 = ½ < Lf = 2, ApproxKKT: ψ(x) = ½x² + ½max(x−1,0)², xs = 0, x0 = 3;
+   (c) the conclusion of (6.3) read off on (a): every record of every run is within 4·13/(k+1)² of (0,0) in squared distance *)
+Example C02_fista_iterates_nonvacuous_m0_fixed_step : forall mi,
+  prob_ok 2 ex_lb ex_ub [/ 2] /\ smooth_convex 2 ex_f (fun x => x) 1 /\ coherent 2 ex_f (fun x => x) exl_pg exl_py exl_gp /\
+  fparams_ok (exl_P mi) 1 /\ minimiser 2 ex_f ex_lb ex_ub [/ 2] [0; 0] /\ length [3; -2] = 2%nat /\
+  strongly_convex 2 ex_f (fun x => x) 1 /\
+  fp_noaccel (exl_P mi) = false /\ ffixed (exl_P mi) = true /\
+  exists o, exl_run mi = FDone o /\ fo_log o <> [].
+Proof. exact exl_conv_nonvacuous. Qed.
+Example C02_fista_iterates_nonvacuous_m1_backtracking : forall mi,
+  prob_ok 1 [None] [None] [] /\ smooth_convex 1 em_f em_g 2 /\ coherent 1 em_f em_g em_pg em_py em_gp /\
+  fparams_ok (em_P mi) 2 /\ minimiser 1 em_f [None] [None] [] [0] /\ length [3] = 1%nat /\
+  strongly_convex 1 em_f em_g 1 /\
+  fp_noaccel (em_P mi) = false /\ ffixed (em_P mi) = false /\
+  exists o, em_run mi = FDone o /\ fo_log o <> [].
+Proof. exact em_conv_nonvacuous. Qed.
+Example C02_fista_iterates_instance : forall mi, exists o, exl_run mi = FDone o /\ fo_log o <> [] /\
+  Forall (fun r => dist2 2 (jxh (fr_it r)) [0; 0] <= 4 * 1 * 13 / (1 * 1 * ((INR (fr_k r) + 1) * (INR (fr_k r) + 1)))) (fo_log o).
+Proof. exact exl_iterates. Qed.
 
 (* ====================================================================================================================
    NOTE — positive tolerance factors (quadratic_upperbound_tolerance_factor = linesearch_tolerance_factor = 10 ε_mach by default).  NOT PROVED.
